@@ -242,25 +242,27 @@ func init() {
 			{Funcs: `^primitive\.((Write|Read|LengthOf)UnsignedVint|(en|de)codeZigZag)$`, OnlyCt: true, Classes: layoutClasses},
 			{Funcs: `^\(\*frame\.codec\)\.(EncodeHeader|DecodeHeader|EncodeRawFrame|DecodeRawFrame|encodeBodyUncompressed|DecodeBody)$`, OnlyCt: true, Classes: layoutClasses},
 			{Funcs: `^frame\.lemmaHeaderRoundTrip$`, OnlyCt: true, Classes: layoutClasses},
-			{Funcs: `^primitive\.(WriteStringList|WriteBytesMap|ReadStringList)$|^\(\*message\.[A-Za-z]+\)\.Flags$`, OnlyCt: true, Classes: layoutClasses},
+			{Funcs: `^primitive\.(WriteStringList|WriteBytesMap|ReadStringList)$|^\(\*message\.[A-Za-z]+\)\.Flags$|^message\.lemmaLayout[A-Za-z]+$`, OnlyCt: true, Classes: layoutClasses},
 		},
 		Assume: []string{
 			"the oracle is a transcription of the specifications into contract language (frame/contracts_verif.go: header layout, supported versions 2,3,4,5,0x41,0x42, request/response opcode tables; primitive/contracts_verif.go: big-endian [byte]/[short]/[int]/[long], stream id width by version, [string], [long string], [bytes] with null = -1, [short bytes]) - independent of the code under proof",
 			"covered: EncodeHeader emits exactly the specified bytes and refuses unsupported versions; DecodeHeader reads exactly those fields from exactly those bytes and accepts only supported versions and opcodes whose direction matches the direction bit (all 2^16 version/opcode bytes, all streams); every listed notation writer emits, and its reader accepts, exactly the specified bytes",
 			"covered: the order of the body prefix, [tracing id][warnings][custom payload], on the write side and (uncompressed responses) on the read side - this obligation failed on the original tree (custom payload and warnings were swapped in both directions) and is fixed; the count prefix of [string list] and [bytes map]; flags set exactly when their field is present",
-			"NOT covered: the body layout of the individual messages (field order and presence per version), [value], [inet], [uuid], maps and lists, type descriptors; those parts of C02 remain undecided by this check; capability predicates per version are proved against spec tables under C19",
+			"covered through the token view (each element of the specification's layout is the k-th notation written into a fresh buffer, its kind and payload stated; ASSUMED token clauses of the notation writers): the QUERY/EXECUTE options <consistency><flags>[values][page size][paging state][serial consistency][timestamp][keyspace][now] and the RESULT Rows metadata prefix <flags><columns_count>[paging state][new metadata id][continuous page no]",
+			"NOT covered: the body layout of the remaining messages (field order and presence per version), [value], [inet], [uuid], maps and lists, type descriptors; those parts of C02 remain undecided by this check; capability predicates per version are proved against spec tables under C19",
 		}})
 	reg(&PropSpec{ID: "C01", Title: "Frame round-trip fidelity (frame header, raw frames, 20 message kinds, table-spec flag)", DesignRef: "DESIGN.md §11 C01",
 		Groups: []Group{
 			{Funcs: `^frame\.lemma(Header|Raw)RoundTrip$`, OnlyCt: true, Classes: layoutClasses},
 			{Funcs: `^\(\*frame\.codec\)\.(EncodeHeader|DecodeHeader|EncodeRawFrame|DecodeRawFrame)$`, OnlyCt: true, Classes: layoutClasses},
-			{Funcs: `^message\.haveSameTable$|^message\.lemmaRoundTrip[A-Za-z]+$|^\(\*message\.[A-Za-z]+\)\.Flags$`, OnlyCt: true, Classes: append([]string{"nil", "index"}, layoutClasses...)},
+			{Funcs: `^message\.haveSameTable$|^message\.lemma(Tok)?RoundTrip[A-Za-z]+$|^\(\*message\.[A-Za-z]+\)\.Flags$`, OnlyCt: true, Classes: append([]string{"nil", "index"}, layoutClasses...)},
 		},
 		Assume: []string{
 			"covered: for every header with a supported version, an opcode of the matching direction and (v2) a stream id in [-128,127], EncodeHeader succeeds into a buffer and DecodeHeader of those bytes succeeds and returns the same direction, version, flags, stream id, opcode and body length; the same with an opaque body of any length and content (raw frames); haveSameTable (which sets the GLOBAL_TABLES_SPEC flag that makes the decoder copy one keyspace/table into every column) is true exactly when all columns share keyspace and table",
 			"covered: every flag of QueryOptions, Batch, Prepare, RowsMetadata and VariablesMetadata is set exactly when the field it announces is present (and no other bit is set) - the writer and the reader both branch on these flags",
 			"covered per message (lemma functions generated by tools/gen_roundtrip.py, each running the real Encode into a buffer and the real Decode on it, strings and byte strings compared by length and byte by byte): AUTHENTICATE, AUTH_RESPONSE, AUTH_CHALLENGE, AUTH_SUCCESS (nil token distinguished), OPTIONS, READY, PREPARE (query), REVISE, RESULT Void, RESULT SetKeyspace, and the ten ERROR kinds that carry only a message",
-			"NOT covered: fields that follow a variable-length field (UNAVAILABLE, READ/WRITE_TIMEOUT, ALREADY_EXISTS, UNPREPARED, PREPARE's keyspace: provable but 30-120 s per equality, see DESIGN.md §13), STARTUP/SUPPORTED (maps), REGISTER, QUERY/EXECUTE/BATCH options, RESULT Rows/Prepared/SchemaChange, EVENT, failure errors, the body prefix (tracing id, custom payload, warnings) and compression (C08 covers the wrappers) - these parts of C01 remain undecided by this check; length agreement is C03, flags/body consistency C20",
+			"covered per message through the TOKEN VIEW of the buffer (tokens.go: the stream as the sequence of notations written; the token clauses of the notation writers/readers are ASSUMED, justified by their byte-level contracts under C02): PREPARE incl. keyspace, STARTUP (option map), ERROR Unavailable, ReadTimeout, WriteTimeout (incl. the version- and CAS-dependent contentions), AlreadyExists, Unprepared, FunctionFailure - field-by-field equality and 'what Encode accepted Decode accepts'",
+			"NOT covered: SUPPORTED (multimap), REGISTER, QUERY/EXECUTE/BATCH (values), RESULT Rows/Prepared/SchemaChange, EVENT, failure errors, the body prefix (tracing id, custom payload, warnings) and compression (C08 covers the wrappers) - these parts of C01 remain undecided by this check; length agreement is C03, flags/body consistency C20",
 		}})
 }
 
